@@ -281,6 +281,48 @@ CHECKS["C11"] = dict(
     technique="Coq frame theorem + splice oracle on real fixes + byte-level file comparison", design_ref="§15",
 )
 
+CHECKS["C12"] = dict(
+    category="proof",
+    text=("PARTIAL. Whether an edit glues or splits tokens depends on the dialect regexes and the reflow engine, which are not modelled; the "
+          "engine's own re-parse validation works on token lists and cannot see a merge in the TEXT. Proved in Coq: the comparator "
+          "(C12_comparator_exact: accepted iff same boundaries and kinds position by position). Every fix of the corpus (fixtures of every "
+          "dialect, mutations, operator/keyword adjacency cases; layout, core, all and the format rule list; clean inputs only) is re-lexed and "
+          "compared with the fixed tree's leaves: boundaries exactly, kinds through the lexer (context-dependent matchers tolerated when the "
+          "token had that kind before). Open finding F16 (`- -5` -> `--5`, `~ ~5` -> `~~5`)."),
+    note=("Trusted: Coq kernel, Model/TokenRel.v, harness/fixcheck.py. Universal statement over rules is validated per run, not proved. No axioms."),
+    technique="verified comparator (Coq) + re-lex translation validation of every fix", design_ref="§16",
+)
+CHECKS["C13"] = dict(
+    category="proof",
+    text=("PARTIAL. Coq theorems over the fix-loop model (phases, passes, last_fixes short-circuit, previous_versions, loop limit) with rules and "
+          "apply_fixes as oracle: C13_loop_only_adopts_validated (for every rule set, limit and pass count the returned tree is related to the "
+          "input by any reflexive-transitive relation every VALIDATED proposal respects -- e.g. 'still parses') and C13_limit_rollback. The "
+          "model's adoption gate is trace-validated: every apply_fixes call of real runs is replayed through it and must carry forward the same "
+          "tree. The truthfulness of the validity flag for the written TEXT is checked per run: cleanly parsing inputs (all dialects, mutations, "
+          "adjacency cases; 4 rule sets) are fixed and the fixed text re-rendered, re-lexed and re-parsed. Open finding F16."),
+    note=("Trusted: Coq kernel, hand model Model/FixLoop.v (trace-validated), harness/fixcheck.py. No axioms."),
+    technique="Coq proof over the fix-loop model + trace validation of the adoption gate + re-parse of every fixed text", design_ref="§17",
+)
+CHECKS["C14"] = dict(
+    category="proof",
+    text=("PARTIAL (reflow engine not modelled). Coq: 'only whitespace changed' (same code-token texts in order, same multiset of comments) is an "
+          "equivalence with a correct boolean checker (C14_ws_only_equivalence, C14_checker_correct) and lifts through the whole fix loop for any "
+          "number of passes, both phases and any limit (C14_ws_only_through_loop). Per run: the layout group under six layout configurations "
+          "(comma/operator positions, indent units, line lengths, indented joins/ctes) on clean inputs of every dialect, mutations and adjacency "
+          "cases; original vs fixed token lists compared, and the comparator cross-evaluated in Coq on a sample."),
+    note=("Trusted: Coq kernel, Model/TokenRel.v, Model/FixLoop.v, harness token extraction. No axioms."),
+    technique="Coq proof of the whitespace-only relation and its lift through the fix loop + token comparison of real layout fixes", design_ref="§18",
+)
+CHECKS["C17"] = dict(
+    category="proof",
+    text=("PARTIAL (rules are an oracle). Coq: C17_no_fix_identity (a tree on which no enabled rule proposes a fix is returned unchanged: the fixpoint "
+          "condition), C17_limit_rollback, and C17_same_fixes_shortcircuit_not_idempotent_refuted (the `fixes == last_fixes` short-circuit can end "
+          "a run at a non-fixpoint: the abstract shape of a non-idempotent run). Per run: fix is executed twice (format rule list, layout, all, "
+          "core) on clean inputs of every dialect, mutations and adjacency cases; the second output must equal the first."),
+    note=("Trusted: Coq kernel, Model/FixLoop.v (trace-validated under C13), harness/fixcheck.py. No axioms."),
+    technique="Coq proof of the loop's fixpoint condition + fix-twice validation", design_ref="§21",
+)
+
 NOT_YET = "no check built yet in this round (planned: see DESIGN.md section for this property)"
 
 
